@@ -125,6 +125,47 @@ enum Sys {
     Unlink(String),
 }
 
+/// strace prints non-ASCII bytes of a path as octal escapes (`\303\274.md`)
+fn unescape_strace(q: &str) -> String {
+    let b = q.as_bytes();
+    let mut out: Vec<u8> = vec![];
+    let mut i = 0;
+    while i < b.len() {
+        if b[i] == b'\\' && i + 1 < b.len() {
+            let c = b[i + 1];
+            if (b'0'..=b'7').contains(&c) {
+                let mut j = i + 1;
+                let mut v = 0u32;
+                while j < b.len() && j < i + 4 && (b'0'..=b'7').contains(&b[j]) {
+                    v = v * 8 + (b[j] - b'0') as u32;
+                    j += 1;
+                }
+                out.push(v as u8);
+                i = j;
+                continue;
+            }
+            if c == b'x' && i + 3 < b.len() {
+                if let Ok(v) = u8::from_str_radix(&q[i + 2..i + 4], 16) {
+                    out.push(v);
+                    i += 4;
+                    continue;
+                }
+            }
+            out.push(match c {
+                b'n' => b'\n',
+                b't' => b'\t',
+                b'r' => b'\r',
+                other => other,
+            });
+            i += 2;
+        } else {
+            out.push(b[i]);
+            i += 1;
+        }
+    }
+    String::from_utf8_lossy(&out).to_string()
+}
+
 /// the write-side system calls on files below the library, from an strace log
 fn parse_strace(log: &str, root: &str) -> Vec<Sys> {
     let mut fds: std::collections::HashMap<(String, String), String> = std::collections::HashMap::new();
@@ -154,7 +195,7 @@ fn parse_strace(log: &str, root: &str) -> Vec<Sys> {
             let mut it = s.split('"');
             it.next();
             while let (Some(q), _) = (it.next(), it.next()) {
-                v.push(q.to_string());
+                v.push(unescape_strace(q));
             }
             v
         };
